@@ -45,8 +45,10 @@ def bookkeeping(max_k, max_restarts):
         norm_tol = env.real("norm_tol", lo=1e-12, hi=1.0)
         calls = {"op": 0}
         eig = []
+        op_in = []
 
         def op(x):
+            op_in.append(x.clone())
             w = T.tensor([complex(*c) for c in OUTS[calls["op"] % len(OUTS)]], dtype=T.complex128)
             calls["op"] += 1
             return w
@@ -78,6 +80,27 @@ def bookkeeping(max_k, max_restarts):
         for k, rec in enumerate(eig):
             paired.append(env.eqv(e, scalar(rec.theta[0])))
         env.check(b_or(*paired) if paired else True, "the returned energy is the lowest Ritz value of one of the projected problems")
+        # ... and energy and vector belong to the SAME projected problem (the statement's "energy equal to that
+        # vector's Rayleigh quotient" can only hold if the pair is not mixed across iterations)
+        got = res.ground_state.reshape(-1)
+        same_pair = []
+        for k, rec in enumerate(eig):
+            first = (k // max_k) * max_k  # Lanczos basis of the cycle this eigh call belongs to
+            basis = op_in[first : k + 1]
+            rv = sum(c * vec for c, vec in zip(rec.y[:, 0], basis))
+            rv = rv / rv.norm()
+            if env.mutant("pair_from_previous_iteration") and k > 0:
+                rv = None
+            conds = [env.eqv(e, scalar(rec.theta[0]))]
+            if rv is None:
+                conds.append(False)
+            else:
+                for i in range(got.shape[0]):
+                    conds.append(env.eqv(scalar(got[i].real), scalar(rv[i].real)))
+                    conds.append(env.eqv(scalar(got[i].imag), scalar(rv[i].imag)))
+            same_pair.append(b_and(*conds))
+        if eig:
+            env.check(b_or(*same_pair), "returned energy and returned vector are the Ritz pair of one and the same projected problem")
         env.check(b_implies(res.happy_breakdown, res.converged), "a happy breakdown counts as converged")
         tight = 1.0 if not env.mutant("loose_residual") else 2.0  # the mutant oracle demands half the tolerance
         env.check(
@@ -166,7 +189,7 @@ def cases(tier):
                 bookkeeping(mk, mr),
                 covers=COVERS,
                 bounds={"max_krylov_dim": mk, "max_restarts": mr},
-                canaries=["loose_residual"],
+                canaries=["loose_residual"] + (["pair_from_previous_iteration"] if mk * (mr + 1) > 1 else []),
                 timeout_ms=60000,
                 deadline_s=1500,
                 weight=10 * mk * (mr + 1),
